@@ -697,6 +697,15 @@ impl Index {
           match err.downcast_ref() {
             Some(&reorg::Error::Recoverable { height, depth }) => {
               Reorg::handle_reorg(self, height, depth)?;
+
+              // if even the oldest savepoint still contains blocks of the
+              // abandoned branch, rolling back again cannot make progress
+              if self.block_count()? > height.saturating_sub(depth) + 1 {
+                self
+                  .unrecoverably_reorged
+                  .store(true, atomic::Ordering::Relaxed);
+                return Err(anyhow!(reorg::Error::Unrecoverable));
+              }
             }
             Some(&reorg::Error::Unrecoverable) => {
               self
